@@ -3,6 +3,7 @@ package main
 import (
 	"encoding/json"
 	"fmt"
+	"go/ast"
 	"go/constant"
 	"go/types"
 	"os/exec"
@@ -156,6 +157,17 @@ func (lf *layoutFacts) checkDecVsSpec(p *Program, r *Result, rule string) {
 				ok = false
 			}
 		}
+		if !ok {
+			// second form: fields picked at constant offsets of the header buffer instead of with a running cursor
+			if detail, good, applicable := lf.absoluteHeaderReads(fd, skinds); applicable {
+				if good {
+					r.held(rule, "mcap.loadChunk", "chunk header field widths", p.pos(fd.Pos()), detail)
+				} else {
+					r.violated(rule, "mcap.loadChunk", "chunk header field widths", p.pos(fd.Pos()), detail)
+				}
+				return
+			}
+		}
 		if ok {
 			r.held(rule, "mcap.loadChunk", "chunk header field widths", p.pos(fd.Pos()), strings.Join(kinds, " "))
 		} else {
@@ -217,4 +229,87 @@ func runPyOffsets(p *Program) (map[string]pyOffsetFact, error) {
 		return nil, err
 	}
 	return res, nil
+}
+
+// absoluteHeaderReads: integer reads at constant offsets of a buffer (binary.LittleEndian.UintN(buf[K:]) or
+// getUintN(buf, K)) must each start at a field boundary of the specification's fixed prefix and have that field's
+// width; the size, CRC and compression-length fields must be among them.
+func (lf *layoutFacts) absoluteHeaderReads(fd *ast.FuncDecl, skinds []string) (detail string, good, applicable bool) {
+	g := lf.g
+	width := map[string]int{"u8": 1, "u16": 2, "u32": 4, "u64": 8}
+	starts := map[int]string{}
+	off := 0
+	for _, k := range skinds {
+		w, ok := width[k]
+		if !ok {
+			break
+		}
+		starts[off] = k
+		off += w
+	}
+	type rd struct {
+		off  int
+		kind string
+	}
+	var reads []rd
+	ast.Inspect(fd.Body, func(n ast.Node) bool {
+		ce, ok := n.(*ast.CallExpr)
+		if !ok {
+			return true
+		}
+		name := ""
+		if fn := g.calleeOf(ce); fn != nil {
+			name = fn.Name()
+		}
+		kind := map[string]string{"Uint64": "u64", "Uint32": "u32", "Uint16": "u16", "getUint64": "u64", "getUint32": "u32", "getUint16": "u16"}[name]
+		if kind == "" || len(ce.Args) == 0 {
+			return true
+		}
+		constOf := func(e ast.Expr) (int, bool) {
+			if e == nil {
+				return 0, true
+			}
+			if tv, ok := g.info.Types[e]; ok && tv.Value != nil {
+				if v, ok := constant.Int64Val(constant.ToInt(tv.Value)); ok {
+					return int(v), true
+				}
+			}
+			return 0, false
+		}
+		switch {
+		case strings.HasPrefix(name, "get") && len(ce.Args) == 2:
+			if k, ok := constOf(ce.Args[1]); ok {
+				reads = append(reads, rd{k, kind})
+			}
+		case len(ce.Args) == 1:
+			if se, ok := ce.Args[0].(*ast.SliceExpr); ok {
+				if k, ok := constOf(se.Low); ok {
+					reads = append(reads, rd{k, kind})
+				}
+			}
+		}
+		return true
+	})
+	if len(reads) < 3 {
+		return "", false, false
+	}
+	seen := map[int]bool{}
+	var parts []string
+	for _, x := range reads {
+		want, ok := starts[x.off]
+		parts = append(parts, fmt.Sprintf("%s@%d", x.kind, x.off))
+		if !ok {
+			return fmt.Sprintf("the lexer reads a %s at offset %d of the chunk header, which is not the start of a field in the specification's layout", x.kind, x.off), false, true
+		}
+		if want != x.kind {
+			return fmt.Sprintf("the lexer reads a %s at offset %d of the chunk header; the specification has a %s there", x.kind, x.off, want), false, true
+		}
+		seen[x.off] = true
+	}
+	for _, need := range []int{16, 24, 28} {
+		if !seen[need] {
+			return fmt.Sprintf("the lexer does not read the header field at offset %d (uncompressed size, CRC and compression length are needed)", need), false, true
+		}
+	}
+	return "fields read at constant offsets, each at a specified field boundary with the specified width: " + strings.Join(parts, " "), true, true
 }
